@@ -36,7 +36,7 @@ def file_content(g, name):
     return '# only a comment\n'
 
 
-def gen_dir(g, depth, max_depth=3, want_cmake=False):
+def gen_dir(g, depth, max_depth=3, want_cmake=False, k4=False):
     children = []; used = set()
     for _ in range(g.randint(0, 4)):
         nm = g.choice(NAMES); ext = g.choice(EXTS); f = nm + ext
@@ -61,6 +61,14 @@ def gen_dir(g, depth, max_depth=3, want_cmake=False):
             n = g.choice(DIRS)
             if n in used or n.lower() in {u.lower() for u in used}: continue
             used.add(n); children.append(dict(name=n, children=gen_dir(g, depth + 1, max_depth)))
+    if k4:
+        # K4 on purpose: one stem with two spellings of the extension and different contents -- both write <stem>.rst; which one
+        # survives must not depend on the listing order (C17)
+        fs = [c for c in children if 'children' not in c and c['name'].endswith('.cmake')]
+        if fs:
+            c0 = g.choice(fs); twin = c0['name'][:-len('.cmake')] + g.choice(['.CMAKE', '.CMake'])
+            if twin not in used:
+                used.add(twin); children.append(dict(name=twin, content='function(twin_upper_%d hint)\nendfunction()\n' % g.randint(0, 99)))
     g.shuffle(children)
     return children
 
